@@ -387,6 +387,44 @@ fn mutate(rng: &mut Rng, v: &mut Vec<u8>) {
   }
 }
 
+/// Offsets of every length-carrying header (byte string, text, array, map) of a
+/// definite-length CBOR item starting at `pos`: (offset, header length, major
+/// type, nesting depth). `None` for anything the walker does not understand.
+fn walk_cbor(v: &[u8], pos: usize, out: &mut Vec<(usize, usize, u8, usize)>) -> Option<usize> {
+  fn item(v: &[u8], pos: usize, depth: usize, out: &mut Vec<(usize, usize, u8, usize)>) -> Option<usize> {
+    let b = *v.get(pos)?;
+    let (major, info) = (b >> 5, b & 31);
+    let (arg, hl): (u64, usize) = match info {
+      0..=23 => (info.into(), 1),
+      24 => ((*v.get(pos + 1)?).into(), 2),
+      25 => (u16::from_be_bytes(v.get(pos + 1..pos + 3)?.try_into().ok()?).into(), 3),
+      26 => (u32::from_be_bytes(v.get(pos + 1..pos + 5)?.try_into().ok()?).into(), 5),
+      27 => (u64::from_be_bytes(v.get(pos + 1..pos + 9)?.try_into().ok()?), 9),
+      _ => return None,
+    };
+    let mut next = pos + hl;
+    match major {
+      0 | 1 | 7 => {}
+      2 | 3 => {
+        out.push((pos, hl, major, depth));
+        next = next.checked_add(usize::try_from(arg).ok()?)?;
+        if next > v.len() {
+          return None;
+        }
+      }
+      4 | 5 => {
+        out.push((pos, hl, major, depth));
+        for _ in 0..arg.checked_mul(if major == 5 { 2 } else { 1 })? {
+          next = item(v, next, depth + 1, out)?;
+        }
+      }
+      _ => next = item(v, next, depth, out)?,
+    }
+    Some(next)
+  }
+  item(v, pos, 0, out)
+}
+
 fn hostile_cbor(rng: &mut Rng, thorough: bool) -> (Vec<u8>, &'static str) {
   match rng.below(8) {
     0 | 1 => (nasty_cbor(rng), "nasty"),
@@ -440,7 +478,71 @@ fn hostile_cbor(rng: &mut Rng, thorough: bool) -> (Vec<u8>, &'static str) {
   }
 }
 
+/// A valid encoding in which the declared length of one string, byte string,
+/// array or map is replaced by a huge one, for every header the walker finds
+/// (gallery, item, id, attributes, title, traits, trait name, trait value).
+/// What follows the header no longer matches it, so a decoder that trusts the
+/// declared number (preallocation, skipping) is exposed, while one that only
+/// believes the bytes present just runs out of input.
+fn huge_at_every_position(rng: &mut Rng, rep: &mut Report, replay: &serde_json::Value) {
+  let p = gen_properties(rng, false);
+  let packed = rng.chance(1, 2);
+  let Some(v) = (if packed { p.verif_to_packed_cbor() } else { p.verif_to_inline_cbor() }) else {
+    rep.count("huge_at_position_not_encodable");
+    return;
+  };
+  let mut heads = Vec::new();
+  if walk_cbor(&v, 0, &mut heads).is_none() {
+    rep.count("huge_at_position_unwalkable");
+    return;
+  }
+  // all shallow headers, a sample of the (many, alike) deep ones
+  let max_depth = heads.iter().map(|h| h.3).max().unwrap_or(0);
+  let mut chosen = Vec::new();
+  for depth in 0..=max_depth {
+    let mut at: Vec<_> = heads.iter().filter(|h| h.3 == depth).copied().collect();
+    while at.len() > 12 {
+      at.swap_remove(rng.usize(0, at.len() - 1));
+    }
+    chosen.extend(at);
+  }
+  for (off, hl, major, depth) in chosen {
+    for _ in 0..2 {
+      let declared: u64 = match rng.below(8) {
+        0 => u64::MAX,
+        1 => 1 << 63,
+        2 => (1 << 63) - 1,
+        3 => (isize::MAX as u64) / 56 + 1 + rng.below(1000),
+        4 => (isize::MAX as u64) / rng.range(1, 256) + 1,
+        5 => 1 << rng.range(56, 63),
+        6 => u64::MAX - rng.below(64),
+        _ => (1 << 62) + rng.next_u64() % (1 << 62),
+      };
+      let mut bytes = v.clone();
+      let mut head = vec![major << 5 | 27];
+      head.extend(declared.to_be_bytes());
+      bytes.splice(off..off + hl, head);
+      rep.eval();
+      rep.distinct(&("huge-at", packed, major, depth, 64 - declared.leading_zeros()));
+      match catch(|| Properties::verif_from_cbor(&bytes)) {
+        Ok(_) => rep.count(&format!("huge_at_position_decoded_major{major}")),
+        Err(p) => {
+          rep.violation(
+            &format!("C28/decode/panic/{}", panic_signature(&p)),
+            format!("{p}; valid {} encoding with the header at offset {off} (major type {major}, depth {depth}) declaring {declared}: {}", if packed { "packed" } else { "inline" }, hex::encode(&bytes[..bytes.len().min(120)])),
+            replay.clone(),
+          );
+          return;
+        }
+      }
+    }
+  }
+}
+
 fn totality_case(rng: &mut Rng, rep: &mut Report, replay: &serde_json::Value, thorough: bool) {
+  if rng.chance(1, 6) {
+    return huge_at_every_position(rng, rep, replay);
+  }
   let (bytes, class) = hostile_cbor(rng, thorough);
   rep.eval();
   rep.distinct(&("hostile", class, bytes.len().min(4000) / 100));
